@@ -69,7 +69,8 @@ def run(seed=0, n_rounds=2):
                 except Exception as e:  # noqa
                     bad.append(f"{label}: {type(e).__name__}: {e}")
             nc = shape[2]
-            for sl in (slice(1, None), slice(None, -1), slice(0, -1), slice(-2, -1), slice(1, 3), slice(None, None, -1), slice(2, 1), slice(-9, 9)):
+            for sl in (slice(1, None), slice(None, -1), slice(0, -1), slice(-2, -1), slice(1, 3), slice(None, None, -1), slice(2, 1), slice(-9, 9),
+                       slice(-2, None, -1), slice(None, 0, -1), slice(-1, -3, -1), slice(3, 0, -1), slice(0, 3, -1), slice(-1, -9, -1)):
                 cmp(f"isel {sl}", m.isel({"c": sl}), real.isel({"c": sl}))
             i = rng.randrange(shape[1])
             cmp("isel int", m.isel(b=i), real.isel(b=i))
